@@ -38,8 +38,8 @@ def python_equal_clash(specs):
 def atoms():
     out = [NONE, ELL, B(True), B(False)]
     out += [I(n) for n in (0, 1, -1, 2, 127, 128, 255, 256, 2**31 - 1, 2**31, 2**63 - 1, 2**63, 2**64, -2**63, -2**63 - 1, 10**30)]
-    out += [F(x) for x in (0., -0., 1., -1., 2., .5, .1, 1e300, 5e-324, float('inf'), float('-inf'), float('nan'), 2.**64, 1e22, 65504., 16777216.)]
-    out += [C(0, 0), C(0, 1), C(1, 0), C(0, -1), C(1, 1), C(0., -0.), C(-0., 0.), C(float('nan'), 0), C(0, float('inf')), C(.5, .25)]
+    out += [F(x) for x in (0., -0., 1., -1., 2., .5, .1, 1e300, 5e-324, float('inf'), float('-inf'), float('nan'), 2.**64, 1e22, 65504., 16777216., 1.0000000000000002, .3, .30000000000000004, 1e16, 1e16 + 2, 123456789., 123456788., 1e-7, 1.0000001e-7)]
+    out += [C(0, 0), C(0, 1), C(1, 0), C(0, -1), C(1, 1), C(0., -0.), C(-0., 0.), C(float('nan'), 0), C(0, float('inf')), C(.5, .25), C(1.0000000000000002, 0), C(1, 1e-17)]
     out += [S(s) for s in ('', 'a', 'ab', 'b', 'ba', '1', '1.0', 'True', 'None', 'nan', '\x00', 'a\x00', 'a\x00b', '\xe9', '€', 'int', 'hashable_function', 'Direct')]
     out += [Y(b) for b in (b'', b'a', b'ab', b'\x00', b'1', '\xe9'.encode(), b'\xe9')]
     out += [TYPE(n) for n in ('bool', 'int', 'float', 'complex', 'str', 'bytes', 'tuple', 'list', 'dict', 'set', 'frozenset', 'NoneType', 'type', 'object',
